@@ -20,14 +20,20 @@ prop(
         "Tal::read, PublicKey, RpkiCaCsr, BgpsecCsr, IdCert, SignedMessage strict+relaxed, ProvisioningCms, PublicationCms, and in DER and BER mode "
         "AsResources/AsBlocks, IpResources/IpBlocks, ManifestContent, TbsCertList/RevokedCertificates/CrlEntry, x509 Time/Validity, Serial, Name) plus, "
         "for an accepted value, the accessor sweep (all getters and iterators, contains(serial), iter/iter_uris, iter_origins, provider sets, "
-        "to_blocks/iter/asn_count/bounded iter_asns, set operations, Display/Debug, re-encoding, serde, validate*/process/inspect* against a fixed issuer at a fixed time) "
+        "to_blocks/iter/asn_count/bounded iter_asns, range-to-prefix decomposition, set operations, Display/Debug, re-encoding through the captured-bytes path (to_captured / encode_ref of the outer object) *and* through every public structural encoder of the object and its parts "
+        "(TbsCert / TbsIdCert / TbsCertList / RevokedCertificates / CrlEntry / ManifestContent / FileAndHash / ROA and ASPA content / RTA content::encode_ref, Crl / Manifest / Roa / Aspa / Rta / SignedObject / SignedMessage::encode_ref, "
+        "IpResources and AsResources::encode / encode_ref / encode_family / encode_extension, IpBlocks and AsBlocks::encode / encode_ref / encode_family, IpBlock / Prefix / AddressRange::encode, Name, Time, Validity, Serial, PublicKey, KeyUsage), "
+        "serde, validate*/process/inspect* against a fixed issuer at a fixed time) "
         "under catch_unwind inside an allocator window with the thread CPU clock read around it. "
         "Inputs: every captured DER/BER/TAL file under test-data/, 22 objects built with the library's builders under the key pool "
         "(TA/CA/inherit/router certificates, CRL, manifest, ROA, ASPA, two RTAs, CSR, identity certificates, five signed protocol messages incl. one with a "
         "hand-edited re-signed revocation list, two TALs), ~45 sub-structures found by decoding every subtree of those through the component entry points; "
-        "each unchanged through all 32 entry points; truncated at every TLV boundary; 20 tree mutators on an own TLV tree that descends into OCTET/BIT STRING "
+        "each unchanged through all 32 entry points; truncated at every TLV boundary; 21 tree mutators on an own TLV tree that descends into OCTET/BIT STRING "
         "wrapped DER (tag, length +-/0/huge/indefinite/non-minimal, value bytes, splice from another object, duplicate, delete, swap, INTEGER boundary values, "
-        "time strings, OID swaps, BIT STRING unused bits / over-long addresses, BER re-encoding of a subtree, emptying, growing, constructed strings), 1-3 stacked; "
+        "time strings, OID swaps, BIT STRING unused bits / over-long addresses, address-sized BIT STRINGs set to the ends of the address space (empty, all ones, all zeros, full length), BER re-encoding of a subtree, emptying, growing, constructed strings), 1-3 stacked; "
+        "generated RFC 3779 values (block lists from the boundary-dense endpoint pool of the C03 generators — ranges ending at the last / starting at the first address or AS number, whole space, zero-length, adjacent, overlapping, unsorted, one in eight with a reversed range — "
+        "written canonically or raw by the independent DER writer as SEQUENCE OF IPAddressOrRange / ASIdOrRange, IPAddrBlocks with one or both families or inherit, ASIdentifiers): 64 k (quick) / 800 k (thorough) through the resource entry points in DER and BER mode, "
+        "and 6.4 k / 80 k planted into the resource extensions of the pool-signed certificates and signed objects (EE certificate) and re-signed, so that the accessor sweep of the decoded object and validation against the fixed issuer run over them (range-to-prefix decomposition, counts, displays, set algebra); "
         "5 raw byte mutators; random strings; text mutators for TALs; for pool-signed seeds one mutant in 8 (16 thorough) is mutated inside a signed region and "
         "re-signed (message digest, signed attributes, EE certificate, CRL) so that it passes the signature checks; towers of 10^2..10^4 (3*10^4 thorough) nested "
         "constructed values, bare and planted inside real objects, each evaluated in a child process on a 2 MiB thread stack. "
